@@ -1,10 +1,21 @@
 (* C20 -- proofs about the default-instance program (Gen/SingletonProg.v).
 
-   Everything is proved for an arbitrary program [p] of the shape accepted by the boolean check
-   [well_locked] (Sys/Singleton.v); the generated program enters only through
+   Everything is proved for an arbitrary program [p] of one of the TWO shapes accepted by the boolean
+   check [well_locked] (Sys/Singleton.v: publish-then-initialise [prog_of false body] and
+   initialise-then-publish [prog_of true body]); the generated program enters only through
    [prog_well_locked], checked by vm_compute.  So a regenerated program with, say, a tenth
-   dictionary still goes through, while a program without the lock (or releasing it before the
-   initialisation is finished) fails that single obligation -- and is in fact refuted below. *)
+   dictionary, or with the instance built in a local variable and published last, still goes
+   through, while a program without the lock (or releasing it before the initialisation is
+   finished) fails that single obligation -- and is in fact refuted below.
+
+   Reference programs over the body of the generated program: [old_prog] (publish first) and
+   [new_prog] (publish last); the generated program is one of the two (prog_is_old_or_new).  The
+   refutations are stated on variants of these reference programs, so they are the same theorems
+   whichever shape the source currently has:
+     old shape without lock / early release : init_safe, same_instance, single_init all refuted
+     new shape without lock                 : same_instance, single_init refuted, but init_safe
+                                              HOLDS for every thread count and schedule
+                                              (C20_unlocked_new_init_safe). *)
 From SqlModel Require Import Base.
 From SqlModel.Sys Require Import Singleton.
 From SqlModel.Gen Require Import SingletonProg.
@@ -66,27 +77,55 @@ Proof.
 Qed.
 
 (* ---- what the boolean check gives ------------------------------------------------------------ *)
-Definition shape (e : list nat) (p body : list instr) : Prop :=
-  p = IAcquire :: IJumpIfInst (4 + length body) :: INewAssign :: ILoadSelf
-        :: body ++ [IRelease; IReturn]
+(* position of the first statement of the body: 3 when the object is built in a local, 4 when the
+   receiver is first loaded from the shared variable *)
+Definition offs (nw : bool) : nat := if nw then 3 else 4.
+
+Definition shape (e : list nat) (nw : bool) (p body : list instr) : Prop :=
+  p = prog_of nw body
   /\ exists fin, exec_body body fresh_obj = Some fin /\ obj_fullyb e fin = true.
 
-Lemma well_locked_shape e p : well_locked e p = true -> exists body, shape e p body.
+Lemma body_okb_spec e r body :
+  body_okb e r body = true ->
+  r = 4 + length body /\ exists fin, exec_body body fresh_obj = Some fin /\ obj_fullyb e fin = true.
 Proof.
-  unfold well_locked. intros H.
+  unfold body_okb. intros H. apply andb_true_iff in H. destruct H as [Hr Hex].
+  apply Nat.eqb_eq in Hr. split; [exact Hr|].
+  destruct (exec_body body fresh_obj) as [fin|]; [|discriminate]. exists fin; auto.
+Qed.
+
+Lemma shape_of_shape e p nw : shape_of e p = Some nw -> exists body, shape e nw p body.
+Proof.
+  unfold shape_of. intros H.
   destruct p as [|i0 p]; [discriminate|]. destruct i0; try discriminate.
-  destruct p as [|i1 p]; [discriminate|]. destruct i1 as [| |tg| | | | | |]; try discriminate.
-  destruct p as [|i2 p]; [discriminate|]. destruct i2; try discriminate.
-  destruct p as [|i3 rest]; [discriminate|]. destruct i3; try discriminate.
-  destruct (rev rest) as [|j0 l0] eqn:Hrev; [discriminate|]. destruct j0; try discriminate.
-  destruct l0 as [|j1 rbody]; [discriminate|]. destruct j1; try discriminate.
-  apply andb_true_iff in H. destruct H as [Htg Hex]. apply Nat.eqb_eq in Htg.
-  exists (rev rbody). split.
-  - assert (Hrest : rest = rev rbody ++ [IRelease; IReturn]).
+  destruct p as [|i1 p]; [discriminate|]. destruct i1 as [| |tg| | | | | | |k|]; try discriminate.
+  destruct p as [|i2 rest]; [discriminate|]. destruct i2; try discriminate.
+  - (* INewAssign; ILoadSelf *)
+    destruct rest as [|i3 rest]; [discriminate|]. destruct i3; try discriminate.
+    destruct (rev rest) as [|j0 l0] eqn:Hrev; [discriminate|]. destruct j0; try discriminate.
+    destruct l0 as [|j1 rbody]; [discriminate|]. destruct j1; try discriminate.
+    destruct (body_okb e tg (rev rbody)) eqn:Hb; [|discriminate]. injection H as <-.
+    apply body_okb_spec in Hb. destruct Hb as [Htg Hex].
+    exists (rev rbody). split; [|exact Hex].
+    assert (Hrest : rest = rev rbody ++ [IRelease; IReturn]).
     { rewrite <- (rev_involutive rest), Hrev. simpl. rewrite <- app_assoc. reflexivity. }
     rewrite Hrest, Htg. reflexivity.
-  - destruct (exec_body (rev rbody) fresh_obj) as [fin|]; [|discriminate].
-    exists fin; auto.
+  - (* INewLocal *)
+    destruct (rev rest) as [|j0 l0] eqn:Hrev; [discriminate|]. destruct j0; try discriminate.
+    destruct l0 as [|j1 l1]; [discriminate|]. destruct j1; try discriminate.
+    destruct l1 as [|j2 rbody]; [discriminate|]. destruct j2; try discriminate.
+    destruct (body_okb e tg (rev rbody)) eqn:Hb; [|discriminate]. injection H as <-.
+    apply body_okb_spec in Hb. destruct Hb as [Htg Hex].
+    exists (rev rbody). split; [|exact Hex].
+    assert (Hrest : rest = rev rbody ++ [IPublishSelf; IRelease; IReturn]).
+    { rewrite <- (rev_involutive rest), Hrev. simpl. rewrite <- !app_assoc. reflexivity. }
+    rewrite Hrest, Htg. reflexivity.
+Qed.
+
+Lemma well_locked_shape e p : well_locked e p = true -> exists nw body, shape e nw p body.
+Proof.
+  unfold well_locked. destruct (shape_of e p) as [nw|] eqn:E; [|discriminate].
+  intros _. exists nw. apply shape_of_shape. exact E.
 Qed.
 
 Definition is_obj (i : instr) : bool :=
@@ -107,38 +146,39 @@ Lemma exec_instr_obj p st t th i ob ob' :
   exec_obj i ob = Some ob' -> exec_instr p st t th i = step_obj p st t th i.
 Proof. destruct i; simpl; try discriminate; reflexivity. Qed.
 
+Lemma nth_error_S {A} (a : A) l n : nth_error (a :: l) (S n) = nth_error l n.
+Proof. reflexivity. Qed.
+
+Lemma nth_error_app_tail {A} (l tl : list A) j x :
+  nth_error (l ++ tl) j = Some x ->
+  (j < length l /\ nth_error l j = Some x) \/ (length l <= j /\ nth_error tl (j - length l) = Some x).
+Proof.
+  intros H. destruct (Nat.ltb j (length l)) eqn:E.
+  - apply Nat.ltb_lt in E. left. split; [exact E|]. rewrite nth_error_app1 in H; assumption.
+  - apply Nat.ltb_ge in E. right. split; [exact E|]. rewrite nth_error_app2 in H; assumption.
+Qed.
+
 (* =============================================================================================== *)
 Section Generic.
   Variable expected : list nat.
+  Variable nw : bool.
   Variable p body : list instr.
-  Hypothesis Hshape : shape expected p body.
+  Hypothesis Hshape : shape expected nw p body.
 
   Notation r := (4 + length body).
+  Notation off := (offs nw).
 
-  Lemma prog_at k :
-    nth_error p k =
-    match k with
-    | 0 => Some IAcquire
-    | 1 => Some (IJumpIfInst r)
-    | 2 => Some INewAssign
-    | 3 => Some ILoadSelf
-    | S (S (S (S j))) => nth_error (body ++ [IRelease; IReturn]) j
-    end.
-  Proof. destruct Hshape as [-> _]. destruct k as [|[|[|[|j]]]]; reflexivity. Qed.
+  Lemma off_cases : (nw = true /\ off = 3) \/ (nw = false /\ off = 4).
+  Proof. destruct nw; [left|right]; split; reflexivity. Qed.
 
-  Lemma tail_at j :
-    nth_error (body ++ [IRelease; IReturn]) j =
-    if j <? length body then nth_error body j
-    else match j - length body with 0 => Some IRelease | 1 => Some IReturn | _ => None end.
-  Proof.
-    destruct (j <? length body) eqn:E.
-    - apply Nat.ltb_lt in E. apply nth_error_app1; assumption.
-    - apply Nat.ltb_ge in E. rewrite nth_error_app2 by assumption.
-      destruct (j - length body) as [|[|[|q]]]; reflexivity.
-  Qed.
+  Lemma off_bounds : 3 <= off <= 4.
+  Proof. destruct off_cases as [[_ H]|[_ H]]; rewrite H; lia. Qed.
 
   Lemma length_p : length p = r + 2.
-  Proof. destruct Hshape as [-> _]. simpl. rewrite app_length. simpl. lia. Qed.
+  Proof.
+    destruct Hshape as [Hp _]. rewrite Hp. unfold prog_of.
+    destruct nw; cbn [length]; rewrite app_length; cbn [length]; lia.
+  Qed.
 
   Lemma body_is_obj j i : nth_error body j = Some i -> is_obj i = true.
   Proof.
@@ -146,25 +186,68 @@ Section Generic.
     eapply exec_body_is_obj; [exact Hex | eapply nth_error_In; eauto].
   Qed.
 
+  (* ---- forward look-up ---------------------------------------------------------------------- *)
+  Lemma at_0 : nth_error p 0 = Some IAcquire.
+  Proof. destruct Hshape as [Hp _]. rewrite Hp. reflexivity. Qed.
+  Lemma at_1 : nth_error p 1 = Some (IJumpIfInst r).
+  Proof. destruct Hshape as [Hp _]. rewrite Hp. reflexivity. Qed.
+  Lemma at_2 : nth_error p 2 = Some (if nw then INewLocal else INewAssign).
+  Proof. destruct Hshape as [Hp _]. rewrite Hp. unfold prog_of. destruct nw; reflexivity. Qed.
+  Lemma at_load : nw = false -> nth_error p 3 = Some ILoadSelf.
+  Proof. destruct Hshape as [Hp _]. rewrite Hp. intros Hn. unfold prog_of. rewrite Hn. reflexivity. Qed.
+  Lemma at_body j : j < length body -> nth_error p (off + j) = nth_error body j.
+  Proof.
+    destruct Hshape as [Hp _]. rewrite Hp. intros Hj. unfold prog_of, offs.
+    destruct nw; cbn [plus nth_error]; apply nth_error_app1; exact Hj.
+  Qed.
+  Lemma at_publish : nw = true -> nth_error p (off + length body) = Some IPublishSelf.
+  Proof.
+    destruct Hshape as [Hp _]. rewrite Hp. intros Hn. unfold prog_of, offs. rewrite Hn.
+    cbn [plus nth_error]. rewrite nth_error_app2 by lia. rewrite Nat.sub_diag. reflexivity.
+  Qed.
+  Lemma at_release : nth_error p r = Some IRelease.
+  Proof.
+    destruct Hshape as [Hp _]. rewrite Hp. unfold prog_of.
+    change (4 + length body) with (S (S (S (S (length body))))).
+    destruct nw; rewrite !nth_error_S; rewrite nth_error_app2 by lia.
+    - replace (S (length body) - length body) with 1 by lia. reflexivity.
+    - rewrite Nat.sub_diag. reflexivity.
+  Qed.
+
+  (* ---- backward look-up --------------------------------------------------------------------- *)
   Lemma instr_at k i :
     nth_error p k = Some i ->
-    (k = 0 /\ i = IAcquire) \/ (k = 1 /\ i = IJumpIfInst r) \/ (k = 2 /\ i = INewAssign)
-    \/ (k = 3 /\ i = ILoadSelf)
-    \/ (exists j, k = 4 + j /\ j < length body /\ nth_error body j = Some i /\ is_obj i = true)
+    (k = 0 /\ i = IAcquire) \/ (k = 1 /\ i = IJumpIfInst r)
+    \/ (k = 2 /\ nw = false /\ i = INewAssign) \/ (k = 2 /\ nw = true /\ i = INewLocal)
+    \/ (k = 3 /\ nw = false /\ i = ILoadSelf)
+    \/ (exists j, k = off + j /\ j < length body /\ nth_error body j = Some i /\ is_obj i = true)
+    \/ (k = r - 1 /\ nw = true /\ i = IPublishSelf)
     \/ (k = r /\ i = IRelease) \/ (k = r + 1 /\ i = IReturn).
   Proof.
-    rewrite prog_at. destruct k as [|[|[|[|j]]]]; intros H.
-    - left; split; congruence.
-    - right; left; split; congruence.
-    - right; right; left; split; congruence.
-    - right; right; right; left; split; congruence.
-    - right; right; right; right. rewrite tail_at in H.
-      destruct (j <? length body) eqn:E.
-      + apply Nat.ltb_lt in E. left. exists j. repeat split; auto. eapply body_is_obj; eauto.
-      + apply Nat.ltb_ge in E. right.
-        destruct (j - length body) as [|[|q]] eqn:D; try discriminate.
-        * left; split; [lia|congruence].
-        * right; split; [lia|congruence].
+    pose proof Hshape as [Hp _]. pose proof body_is_obj as Hbo.
+    rewrite Hp. unfold prog_of, offs. intros H.
+    destruct k as [|[|k2]]; cbn [nth_error] in H.
+    - left. split; congruence.
+    - right; left. split; congruence.
+    - destruct nw.
+      + destruct k2 as [|j]; cbn [nth_error] in H.
+        * do 3 right; left. repeat split; congruence.
+        * apply nth_error_app_tail in H. destruct H as [[Hj Hb]|[Hj Hb]].
+          -- do 5 right; left. exists j. repeat split; auto. eapply Hbo; eauto.
+          -- destruct (j - length body) as [|[|[|q]]] eqn:D; cbn [nth_error] in Hb.
+             ++ do 6 right; left. repeat split; [lia|congruence].
+             ++ do 7 right; left. split; [lia|congruence].
+             ++ do 8 right. split; [lia|congruence].
+             ++ destruct q; discriminate.
+      + destruct k2 as [|[|j]]; cbn [nth_error] in H.
+        * do 2 right; left. repeat split; congruence.
+        * do 4 right; left. repeat split; congruence.
+        * apply nth_error_app_tail in H. destruct H as [[Hj Hb]|[Hj Hb]].
+          -- do 5 right; left. exists j. repeat split; auto. eapply Hbo; eauto.
+          -- destruct (j - length body) as [|[|q]] eqn:D; cbn [nth_error] in Hb.
+             ++ do 7 right; left. split; [lia|congruence].
+             ++ do 8 right. split; [lia|congruence].
+             ++ destruct q; discriminate.
   Qed.
 
   (* ---- every effective step moves the stepping thread's pc strictly forward ----------------- *)
@@ -186,17 +269,20 @@ Section Generic.
     2:{ left; split; auto. right. exists th; split; auto. left. apply nth_error_None; auto. }
     assert (Hlt : pc th < length p) by (apply nth_error_Some; congruence).
     apply instr_at in Hi.
-    destruct Hi as [[Hk ->]|[[Hk ->]|[[Hk ->]|[[Hk ->]|[(j & Hk & Hj & Hb & Ho)|[[Hk ->]|[Hk ->]]]]]]].
+    destruct Hi as [[Hk ->]|[[Hk ->]|[(Hk & Hn & ->)|[(Hk & Hn & ->)|[(Hk & Hn & ->)
+                   |[(j & Hk & Hj & Hb & Ho)|[(Hk & Hn & ->)|[[Hk ->]|[Hk ->]]]]]]]]].
     - cbn [exec_instr]. destruct (lock st) as [t1|] eqn:Hl.
       + left; split; auto. right. exists th; split; auto. right; split; [auto|congruence].
       + right. moved th.
     - cbn [exec_instr]. destruct (inst st); right; moved th.
     - right. moved th.
     - right. moved th.
+    - right. moved th.
     - right. destruct i; try discriminate; cbn [exec_instr]; unfold step_obj;
         destruct (self th) as [o|]; try destruct (nth_error (heap st) o) as [ob|];
         try (match goal with |- context [exec_obj ?i ?ob] => destruct (exec_obj i ob) end);
         moved th.
+    - cbn [exec_instr]. destruct (self th) as [o|]; right; moved th.
     - cbn [exec_instr]. destruct (lock st); right; moved th.
     - right. moved th.
   Qed.
@@ -218,15 +304,17 @@ Section Generic.
     forall t th, nth_error (threads st) t = Some th -> pc th <= 2 /\ ret th = None.
 
   (* B: one thread (the lock holder) is initialising the one object; its progress through the
-     body determines the object: running the REST of the body yields a fully initialised one *)
+     body determines the object: running the REST of the body yields a fully initialised one.
+     In the publish-first shape the shared variable already designates the object (and the lock is
+     what keeps the others away from it); in the publish-last shape it is still None. *)
   Definition holder_ok (st : state) (th : thread) : Prop :=
     ret th = None /\
-    ((pc th = 3 /\ heap st = [fresh_obj]) \/
-     exists j ob fin, pc th = 4 + j /\ j <= length body /\ self th = Some 0 /\ heap st = [ob] /\
+    ((nw = false /\ pc th = 3 /\ heap st = [fresh_obj]) \/
+     exists j ob fin, pc th = off + j /\ j <= length body /\ self th = Some 0 /\ heap st = [ob] /\
                       exec_body (skipn j body) ob = Some fin /\ obj_fullyb expected fin = true).
 
   Definition phaseB (st : state) : Prop :=
-    inst st = Some 0 /\
+    inst st = (if nw then None else Some 0) /\
     exists t th, nth_error (threads st) t = Some th /\ holder_ok st th /\
       forall t' th', t' <> t -> nth_error (threads st) t' = Some th' ->
                      pc th' = 0 /\ ret th' = None.
@@ -297,15 +385,15 @@ Section Generic.
     unfold step.
     destruct (nth_error (threads st) t) as [th|] eqn:Hth; [|exact HInv].
     destruct (nth_error p (pc th)) as [i|] eqn:Hi; [|exact HInv].
-    pose proof length_p as Hlen.
+    pose proof length_p as Hlen. pose proof off_bounds as Hob.
     destruct Hph as [(HiN & Hhp & Hall)
                     |[(HiS & tH & thH & HtH & (HretH & HpcH) & Hoth)
                      |(HiS & (ob & Hhp & Hfull) & Hall)]].
     - (* ---------- phase A ---------- *)
       destruct (Hall t th Hth) as [Hpc Hret].
-      rewrite prog_at in Hi.
-      destruct (pc th) as [|[|[|q]]] eqn:Hpc'; [| | |lia]; injection Hi as <-; cbn [exec_instr].
+      destruct (pc th) as [|[|[|q]]] eqn:Hpc'; [| | |lia].
       + (* IAcquire *)
+        rewrite at_0 in Hi. injection Hi as <-. cbn [exec_instr].
         destruct (lock st) as [t1|] eqn:Hl; [exact HInv|].
         locks_acquire HL1 HL2 Hth Hl.
         left. split; [assumption|split; [assumption|]]. cbn [threads].
@@ -313,6 +401,7 @@ Section Generic.
         * cbn; rewrite Hpc'; split; [lia|assumption].
         * eauto.
       + (* IJumpIfInst: falls through *)
+        rewrite at_1 in Hi. injection Hi as <-. cbn [exec_instr].
         rewrite HiN. unfold set_thread.
         assert (Hcs : in_cs (pc th)) by (unfold in_cs; rewrite Hpc'; lia).
         assert (Hlk : lock st = Some t) by (eapply HL1; eauto).
@@ -321,67 +410,93 @@ Section Generic.
         intros t' th' H'. apply nth_error_upd_inv in H'. destruct H' as [[-> ->]|[Hne H']].
         * cbn; rewrite Hpc'; split; [lia|assumption].
         * eauto.
-      + (* INewAssign *)
+      + (* the allocation: INewAssign (publish first) / INewLocal (publish last) *)
+        rewrite at_2 in Hi. injection Hi as <-.
         assert (Hcs : in_cs (pc th)) by (unfold in_cs; rewrite Hpc'; lia).
         assert (Hlk : lock st = Some t) by (eapply HL1; eauto).
-        rewrite Hhp. cbn [length app].
-        locks_same HL1 HL2 Hth Hlk.
-        right; left. split; [reflexivity|]. cbn [threads heap].
-        exists t, (advance th). split; [eapply nth_error_upd_same; eauto|]. split.
-        * split; [assumption|]. left. cbn; rewrite Hpc'; auto.
-        * intros t' th' Hne H'. rewrite nth_error_upd_other in H' by assumption.
+        assert (Hothers : forall t' th', t' <> t -> nth_error (threads st) t' = Some th' ->
+                                         pc th' = 0 /\ ret th' = None).
+        { intros t' th' Hne H'.
           destruct (Hall t' th' H') as [Hpc2 Hret2]. split; [|assumption].
           destruct (pc th') as [|k] eqn:Hk; [reflexivity|].
           assert (Hcs' : in_cs (pc th')) by (unfold in_cs; rewrite Hk; lia).
-          specialize (HL1 t' th' H' Hcs'). congruence.
+          specialize (HL1 t' th' H' Hcs'). congruence. }
+        destruct off_cases as [[Hnw Hoff]|[Hnw Hoff]]; rewrite Hnw; cbn [exec_instr];
+          rewrite Hhp; cbn [length app].
+        * (* INewLocal *)
+          locks_same HL1 HL2 Hth Hlk.
+          right; left. split; [rewrite Hnw; exact HiN|]. cbn [threads heap].
+          eexists t, _. split; [eapply nth_error_upd_same; eauto|]. split.
+          -- split; [assumption|]. right. destruct Hshape as [_ (fin & Hex & Hfull)].
+             exists 0, fresh_obj, fin. cbn [pc self skipn]. rewrite Hpc'.
+             repeat split; auto; lia.
+          -- intros t' th' Hne H'. rewrite nth_error_upd_other in H' by assumption. eauto.
+        * (* INewAssign *)
+          locks_same HL1 HL2 Hth Hlk.
+          right; left. split; [rewrite Hnw; reflexivity|]. cbn [threads heap].
+          exists t, (advance th). split; [eapply nth_error_upd_same; eauto|]. split.
+          -- split; [assumption|]. left. cbn; rewrite Hpc'; auto.
+          -- intros t' th' Hne H'. rewrite nth_error_upd_other in H' by assumption. eauto.
     - (* ---------- phase B ---------- *)
       assert (HcsH : in_cs (pc thH)).
-      { unfold in_cs. destruct HpcH as [[-> _]|(j & ob & fin & -> & Hj & _)]; lia. }
+      { unfold in_cs. destruct HpcH as [(_ & -> & _)|(j & ob & fin & -> & Hj & _)]; lia. }
       assert (HlkH : lock st = Some tH) by (eapply HL1; eauto).
       destruct (Nat.eq_dec t tH) as [->|Hne].
       2:{ (* a waiting thread: blocked on the acquire *)
-          destruct (Hoth t th Hne Hth) as [Hpc0 _]. rewrite Hpc0, prog_at in Hi.
+          destruct (Hoth t th Hne Hth) as [Hpc0 _]. rewrite Hpc0, at_0 in Hi.
           injection Hi as <-. cbn [exec_instr]. rewrite HlkH. exact HInv. }
       rewrite HtH in Hth. injection Hth as <-. rename HtH into Hth.
-      rewrite prog_at in Hi.
-      destruct HpcH as [[Hpc Hhp]|(j & ob & fin & Hpc & Hj & Hself & Hhp & Hex & Hfull)].
-      + (* ILoadSelf *)
-        rewrite Hpc in Hi. injection Hi as <-. cbn [exec_instr]. unfold set_thread.
-        rewrite HiS.
+      destruct HpcH as [(Hnw & Hpc & Hhp)|(j & ob & fin & Hpc & Hj & Hself & Hhp & Hex & Hfull)].
+      + (* ILoadSelf (publish-first shape only) *)
+        rewrite Hpc, (at_load Hnw) in Hi. injection Hi as <-. cbn [exec_instr]. unfold set_thread.
+        rewrite Hnw in HiS. rewrite HiS.
+        assert (Hoff : off = 4) by (rewrite Hnw; reflexivity).
         locks_same HL1 HL2 Hth HlkH.
-        right; left. split; [first [assumption|reflexivity]|]. cbn [threads heap].
+        right; left. split; [rewrite Hnw; reflexivity|]. cbn [threads heap].
         eexists tH, _. split; [eapply nth_error_upd_same; eauto|]. split.
         * split; [assumption|]. right. destruct Hshape as [_ (fin & Hex & Hfull)].
           exists 0, fresh_obj, fin. cbn [pc self skipn]. rewrite Hpc.
           repeat split; auto; lia.
         * intros t' th' Hne H'. rewrite nth_error_upd_other in H' by assumption. eauto.
-      + rewrite Hpc in Hi. cbn [plus] in Hi. rewrite tail_at in Hi.
-        destruct (j <? length body) eqn:Ej.
+      + destruct (j <? length body) eqn:Ej.
         * (* a statement of default_initialization *)
-          apply Nat.ltb_lt in Ej.
+          apply Nat.ltb_lt in Ej. rewrite Hpc, (at_body j Ej) in Hi.
           rewrite (skipn_nth_cons _ _ _ Hi) in Hex. cbn [exec_body] in Hex.
           destruct (exec_obj i ob) as [ob'|] eqn:Eob; [|discriminate].
           rewrite (exec_instr_obj _ _ _ _ _ _ _ Eob). unfold step_obj.
           rewrite Hself, Hhp. cbn [nth_error]. rewrite Eob. cbn [upd].
           locks_same HL1 HL2 Hth HlkH.
-          right; left. split; [first [assumption|reflexivity]|]. cbn [threads heap].
+          right; left. split; [assumption|]. cbn [threads heap].
           exists tH, (advance thH). split; [eapply nth_error_upd_same; eauto|]. split.
           -- split; [assumption|]. right. exists (S j), ob', fin. cbn [pc self advance].
              rewrite Hpc. repeat split; auto; lia.
           -- intros t' th' Hne H'. rewrite nth_error_upd_other in H' by assumption. eauto.
-        * (* IRelease: the initialisation is complete *)
+        * (* the initialisation is complete *)
           apply Nat.ltb_ge in Ej. assert (j = length body) by lia. subst j.
-          rewrite Nat.sub_diag in Hi. injection Hi as <-. cbn [exec_instr]. rewrite HlkH.
           rewrite skipn_all in Hex. cbn [exec_body] in Hex. injection Hex as <-.
-          locks_release HL1 HL2 Hth HlkH.
-          right; right. split; [first [assumption|reflexivity]|]. cbn [threads heap]. split; [eauto|].
-          intros t' th' H'. apply nth_error_upd_inv in H'. destruct H' as [[-> ->]|[Hne H']].
-          -- cbn [pc ret advance]. rewrite HretH. repeat split; try lia; discriminate.
-          -- destruct (Hoth t' th' Hne H') as [-> ->]. repeat split; try lia; discriminate.
+          destruct off_cases as [[Hnw Hoff]|[Hnw Hoff]].
+          -- (* IPublishSelf: the finished object becomes visible; still inside the with-block *)
+             rewrite Hpc, (at_publish Hnw) in Hi. injection Hi as <-. cbn [exec_instr].
+             rewrite Hself.
+             locks_same HL1 HL2 Hth HlkH.
+             right; right. split; [reflexivity|]. cbn [threads heap]. split; [eauto|].
+             intros t' th' H'. apply nth_error_upd_inv in H'. destruct H' as [[-> ->]|[Hne H']].
+             ++ cbn [pc ret advance]. rewrite HretH. repeat split; try lia; discriminate.
+             ++ destruct (Hoth t' th' Hne H') as [-> ->]. repeat split; try lia; discriminate.
+          -- (* IRelease *)
+             assert (Hr : pc thH = r) by lia.
+             rewrite Hr, at_release in Hi. injection Hi as <-. cbn [exec_instr]. rewrite HlkH.
+             rewrite Hnw in HiS.
+             locks_release HL1 HL2 Hth HlkH.
+             right; right. split; [assumption|]. cbn [threads heap]. split; [eauto|].
+             intros t' th' H'. apply nth_error_upd_inv in H'. destruct H' as [[-> ->]|[Hne H']].
+             ++ cbn [pc ret advance]. rewrite HretH. repeat split; try lia; discriminate.
+             ++ destruct (Hoth t' th' Hne H') as [-> ->]. repeat split; try lia; discriminate.
     - (* ---------- phase C ---------- *)
       destruct (Hall t th Hth) as (Hpc & Hpc2 & Hret & Hfin).
       apply instr_at in Hi.
-      destruct Hi as [[Hk ->]|[[Hk ->]|[[Hk ->]|[[Hk ->]|[(j & Hk & Hj & Hb & Ho)|[[Hk ->]|[Hk ->]]]]]]];
+      destruct Hi as [[Hk ->]|[[Hk ->]|[(Hk & Hn & ->)|[(Hk & Hn & ->)|[(Hk & Hn & ->)
+                     |[(j & Hk & Hj & Hb & Ho)|[(Hk & Hn & ->)|[[Hk ->]|[Hk ->]]]]]]]]];
         try lia; cbn [exec_instr].
       + (* IAcquire *)
         destruct (lock st) as [t1|] eqn:Hl; [exact HInv|].
@@ -420,7 +535,6 @@ Section Generic.
           -- cbn [pc ret]. split; [lia|split; [lia|split; [intros o Ho'; injection Ho' as <-; lia | intros; reflexivity]]].
           -- eauto.
   Qed.
-
   Lemma run_from_inv sched : forall st, Inv st -> Inv (run_from p st sched).
   Proof.
     unfold run_from. induction sched as [|t sched IH]; intros st H; cbn [fold_left]; auto.
@@ -451,16 +565,17 @@ Section Generic.
   Proof.
     intros (_ & _ & Hph).
     destruct Hph as [(_ & -> & _)
-                    |[(_ & tH & thH & _ & (_ & [[_ ->]|(j & ob & fin & _ & _ & _ & -> & _)]) & _)
+                    |[(_ & tH & thH & _ & (_ & [(_ & _ & ->)|(j & ob & fin & _ & _ & _ & -> & _)]) & _)
                      |(_ & (ob & -> & _) & _)]]; cbn; lia.
   Qed.
 
   Lemma inv_inst st o : Inv st -> inst st = Some o -> o = 0.
   Proof.
-    intros (_ & _ & [(H & _)|[(H & _)|(H & _)]]) Ho; congruence.
+    intros (_ & _ & [(H & _)|[(H & _)|(H & _)]]) Ho; try congruence.
+    destruct nw; congruence.
   Qed.
 
-  (* the shared variable is assigned by INewAssign only (any program) *)
+  (* the shared variable is assigned by INewAssign / IPublishSelf only, never reset (any program) *)
   Lemma step_inst_mono q st t : inst st <> None -> inst (step q st t) <> None.
   Proof.
     intros H. unfold step. destruct (nth_error (threads st) t) as [th|]; [|assumption].
@@ -603,7 +718,8 @@ Section Generic.
                      |(_ & _ & Hall)]].
     - destruct (Hall t th Hth) as [Hp _]. lia.
     - pose proof (todo_zero _ _ _ Hmu HtH) as HpcH'.
-      destruct HpcH as [[Hp _]|(j & ob & fin & Hp & Hj & _)]; lia.
+      pose proof off_bounds as Hob.
+      destruct HpcH as [(_ & Hp & _)|(j & ob & fin & Hp & Hj & _)]; lia.
     - destruct (Hall t th Hth) as (_ & _ & _ & Hfin). apply Hfin. lia.
   Qed.
 
@@ -664,6 +780,80 @@ Section Generic.
 End Generic.
 
 (* =============================================================================================== *)
+(* Any program accepted by [well_locked] -- either shape *)
+Section WellLocked.
+  Variable e : list nat.
+  Variable p : list instr.
+  Hypothesis Hwl : well_locked e p = true.
+
+  Lemma wl_inv n sched :
+    exists nw body, shape e nw p body /\ Inv e nw body (run p n sched).
+  Proof.
+    destruct (well_locked_shape _ _ Hwl) as (nw & body & Hs).
+    exists nw, body. split; [assumption|]. apply run_inv. assumption.
+  Qed.
+
+  Theorem wl_init_safe : forall n sched t o,
+    returned (run p n sched) t = Some o -> fully_initialised e (run p n sched) o.
+  Proof.
+    intros n sched t o H. destruct (wl_inv n sched) as (nw & body & Hs & HI).
+    destruct (inv_returned _ _ _ _ _ _ HI H) as [-> Hf]. exact Hf.
+  Qed.
+
+  Theorem wl_same_instance : forall n sched t1 t2 o1 o2,
+    returned (run p n sched) t1 = Some o1 -> returned (run p n sched) t2 = Some o2 -> o1 = o2.
+  Proof.
+    intros n sched t1 t2 o1 o2 H1 H2. destruct (wl_inv n sched) as (nw & body & Hs & HI).
+    destruct (inv_returned _ _ _ _ _ _ HI H1) as [-> _].
+    destruct (inv_returned _ _ _ _ _ _ HI H2) as [-> _]. reflexivity.
+  Qed.
+
+  Theorem wl_single_init : forall n sched, length (heap (run p n sched)) <= 1.
+  Proof.
+    intros n sched. destruct (wl_inv n sched) as (nw & body & Hs & HI). eapply inv_heap; eauto.
+  Qed.
+
+  Theorem wl_never_replaced : forall n sched sched' o,
+    inst (run p n sched) = Some o -> inst (run p n (sched ++ sched')) = Some o.
+  Proof.
+    intros n sched sched' o H.
+    destruct (wl_inv n sched) as (nw & body & Hs & HI).
+    destruct (wl_inv n (sched ++ sched')) as (nw' & body' & Hs' & HI').
+    pose proof (inv_inst _ _ _ _ Hs _ _ HI H) as Ho. subst o.
+    assert (Hne : inst (run p n (sched ++ sched')) <> None).
+    { unfold run, run_from. rewrite fold_left_app.
+      apply (run_from_inst_mono p sched' (fold_left (step p) sched (init n))).
+      unfold run, run_from in H. rewrite H. discriminate. }
+    destruct (inst (run p n (sched ++ sched'))) as [o'|] eqn:E; [|congruence].
+    f_equal. exact (inv_inst _ _ _ _ Hs' _ _ HI' E).
+  Qed.
+
+  Theorem wl_returned_stable : forall n sched sched' t o,
+    returned (run p n sched) t = Some o -> returned (run p n (sched ++ sched')) t = Some o.
+  Proof.
+    intros n sched sched' t o H.
+    destruct (well_locked_shape _ _ Hwl) as (nw & body & Hs).
+    unfold run, run_from. rewrite fold_left_app.
+    apply (run_from_returned_stable _ _ _ _ Hs sched'); [|exact H].
+    apply (run_inv _ _ _ _ Hs n sched).
+  Qed.
+
+  Theorem wl_no_deadlock_fair : forall n blks t,
+    Forall (fair_block n) blks -> n * length p <= length blks -> t < n ->
+    returned (run p n (concat blks)) t = Some 0.
+  Proof.
+    intros n blks t HF Hk Ht.
+    destruct (well_locked_shape _ _ Hwl) as (nw & body & Hs).
+    eapply generic_no_deadlock; eauto.
+  Qed.
+End WellLocked.
+Print Assumptions wl_init_safe.
+Print Assumptions wl_same_instance.
+Print Assumptions wl_single_init.
+Print Assumptions wl_never_replaced.
+Print Assumptions wl_no_deadlock_fair.
+
+(* =============================================================================================== *)
 (* the generated program *)
 Notation prog := get_default_instance_prog.
 
@@ -672,69 +862,40 @@ Lemma prog_well_locked : well_locked expected_kws prog = true.
 Proof. vm_compute. reflexivity. Qed.
 
 Lemma prog_inv n sched :
-  exists body, shape expected_kws prog body /\ Inv expected_kws body (run prog n sched).
-Proof.
-  destruct (well_locked_shape _ _ prog_well_locked) as [body Hs].
-  exists body. split; [assumption|]. apply run_inv. assumption.
-Qed.
+  exists nw body, shape expected_kws nw prog body /\ Inv expected_kws nw body (run prog n sched).
+Proof. exact (wl_inv _ _ prog_well_locked n sched). Qed.
 
 (* every thread that has returned works with a completely initialised lexer *)
 Theorem C20_init_safe : forall n sched t o,
   returned (run prog n sched) t = Some o ->
   fully_initialised expected_kws (run prog n sched) o.
-Proof.
-  intros n sched t o H. destruct (prog_inv n sched) as (body & Hs & HI).
-  destruct (inv_returned _ _ _ _ _ HI H) as [-> Hf]. exact Hf.
-Qed.
+Proof. exact (wl_init_safe _ _ prog_well_locked). Qed.
 Print Assumptions C20_init_safe.
 
 Theorem C20_same_instance : forall n sched t1 t2 o1 o2,
   returned (run prog n sched) t1 = Some o1 ->
   returned (run prog n sched) t2 = Some o2 -> o1 = o2.
-Proof.
-  intros n sched t1 t2 o1 o2 H1 H2. destruct (prog_inv n sched) as (body & Hs & HI).
-  destruct (inv_returned _ _ _ _ _ HI H1) as [-> _].
-  destruct (inv_returned _ _ _ _ _ HI H2) as [-> _]. reflexivity.
-Qed.
+Proof. exact (wl_same_instance _ _ prog_well_locked). Qed.
 Print Assumptions C20_same_instance.
 
-(* the heap is append-only (INewAssign is the only instruction that extends it), so its length is
-   the number of objects ever allocated *)
+(* the heap is append-only (INewAssign / INewLocal are the only instructions that extend it), so its
+   length is the number of objects ever allocated *)
 Theorem C20_single_init : forall n sched, length (heap (run prog n sched)) <= 1.
-Proof.
-  intros n sched. destruct (prog_inv n sched) as (body & Hs & HI). eapply inv_heap; eauto.
-Qed.
+Proof. exact (wl_single_init _ _ prog_well_locked). Qed.
 Print Assumptions C20_single_init.
 
 (* an instance once published is never replaced: at any later time the shared variable still
    holds the same object *)
 Theorem C20_never_replaced : forall n sched sched' o,
   inst (run prog n sched) = Some o -> inst (run prog n (sched ++ sched')) = Some o.
-Proof.
-  intros n sched sched' o H.
-  destruct (prog_inv n sched) as (body & Hs & HI).
-  destruct (prog_inv n (sched ++ sched')) as (body' & Hs' & HI').
-  pose proof (inv_inst _ _ _ _ HI H) as Ho. subst o.
-  assert (Hne : inst (run prog n (sched ++ sched')) <> None).
-  { unfold run, run_from. rewrite fold_left_app.
-    apply (run_from_inst_mono prog sched' (fold_left (step prog) sched (init n))).
-    unfold run, run_from in H. rewrite H. discriminate. }
-  destruct (inst (run prog n (sched ++ sched'))) as [o'|] eqn:E; [|congruence].
-  f_equal. exact (inv_inst _ _ _ _ HI' E).
-Qed.
+Proof. exact (wl_never_replaced _ _ prog_well_locked). Qed.
 Print Assumptions C20_never_replaced.
 
 (* a thread that has returned keeps its result, and that object stays fully initialised *)
 Theorem C20_returned_stable : forall n sched sched' t o,
   returned (run prog n sched) t = Some o ->
   returned (run prog n (sched ++ sched')) t = Some o.
-Proof.
-  intros n sched sched' t o H.
-  destruct (well_locked_shape _ _ prog_well_locked) as [body Hs].
-  unfold run, run_from. rewrite fold_left_app.
-  apply (run_from_returned_stable _ _ _ Hs sched'); [|exact H].
-  apply (run_inv _ _ _ Hs n sched).
-Qed.
+Proof. exact (wl_returned_stable _ _ prog_well_locked). Qed.
 Print Assumptions C20_returned_stable.
 
 Corollary C20_init_safe_later : forall n sched sched' t o,
@@ -757,11 +918,7 @@ Print Assumptions C20_init_safe_later.
 Theorem C20_no_deadlock_fair : forall n blks t,
   Forall (fair_block n) blks -> n * length prog <= length blks -> t < n ->
   returned (run prog n (concat blks)) t = Some 0.
-Proof.
-  intros n blks t HF Hk Ht.
-  destruct (well_locked_shape _ _ prog_well_locked) as [body Hs].
-  eapply generic_no_deadlock; eauto.
-Qed.
+Proof. exact (wl_no_deadlock_fair _ _ prog_well_locked). Qed.
 Print Assumptions C20_no_deadlock_fair.
 
 Theorem C20_no_deadlock_partial : forall n k t,
@@ -787,17 +944,393 @@ Proof.
 Qed.
 
 (* =============================================================================================== *)
+(* Reference programs of both shapes over the body of the generated program.  The generated
+   program IS one of them (which one depends on the source); the theorems above hold for both, the
+   refutations below are about their unprotected variants. *)
+Definition gen_body : list instr := filter is_obj prog.
+Definition old_prog : list instr := prog_of false gen_body.   (* publish, then initialise *)
+Definition new_prog : list instr := prog_of true gen_body.    (* initialise, then publish *)
+
+Lemma filter_is_obj_body l : forall ob fin, exec_body l ob = Some fin -> filter is_obj l = l.
+Proof.
+  induction l as [|a l IH]; intros ob fin H; [reflexivity|].
+  cbn [exec_body] in H. destruct (exec_obj a ob) as [ob'|] eqn:E; [|discriminate].
+  cbn [filter]. rewrite (exec_obj_is_obj _ _ _ E). f_equal. eapply IH; eauto.
+Qed.
+
+Lemma shape_body e nw p body : shape e nw p body -> filter is_obj p = body.
+Proof.
+  intros [-> (fin & Hex & _)]. pose proof (filter_is_obj_body _ _ _ Hex) as Hf.
+  unfold prog_of. destruct nw; cbn [filter is_obj]; rewrite filter_app; cbn [filter is_obj];
+    rewrite Hf, app_nil_r; reflexivity.
+Qed.
+
+Lemma prog_is_old_or_new : prog = old_prog \/ prog = new_prog.
+Proof.
+  destruct (well_locked_shape _ _ prog_well_locked) as (nw & body & Hs).
+  pose proof (shape_body _ _ _ _ Hs) as Hb. destruct Hs as [Hp _].
+  unfold old_prog, new_prog, gen_body. rewrite Hb.
+  destruct nw; [right|left]; exact Hp.
+Qed.
+
+Lemma gen_body_ok :
+  exists fin, exec_body gen_body fresh_obj = Some fin /\ obj_fullyb expected_kws fin = true.
+Proof.
+  destruct (well_locked_shape _ _ prog_well_locked) as (nw & body & Hs).
+  unfold gen_body. rewrite (shape_body _ _ _ _ Hs). destruct Hs as [_ H]. exact H.
+Qed.
+
+Lemma old_prog_well_locked : well_locked expected_kws old_prog = true.
+Proof. vm_compute. reflexivity. Qed.
+Lemma new_prog_well_locked : well_locked expected_kws new_prog = true.
+Proof. vm_compute. reflexivity. Qed.
+Example old_prog_shape : shape_of expected_kws old_prog = Some false.
+Proof. vm_compute. reflexivity. Qed.
+Example new_prog_shape : shape_of expected_kws new_prog = Some true.
+Proof. vm_compute. reflexivity. Qed.
+
+(* both reference programs enjoy all the theorems, whichever one the source currently is *)
+Theorem C20_both_shapes_safe : forall p, p = old_prog \/ p = new_prog ->
+  (forall n sched t o, returned (run p n sched) t = Some o ->
+                       fully_initialised expected_kws (run p n sched) o)
+  /\ (forall n sched t1 t2 o1 o2, returned (run p n sched) t1 = Some o1 ->
+                                  returned (run p n sched) t2 = Some o2 -> o1 = o2)
+  /\ (forall n sched, length (heap (run p n sched)) <= 1)
+  /\ (forall n sched sched' o, inst (run p n sched) = Some o ->
+                               inst (run p n (sched ++ sched')) = Some o)
+  /\ (forall n blks t, Forall (fair_block n) blks -> n * length p <= length blks -> t < n ->
+                       returned (run p n (concat blks)) t = Some 0).
+Proof.
+  intros p Hp.
+  assert (Hwl : well_locked expected_kws p = true)
+    by (destruct Hp as [->| ->]; [exact old_prog_well_locked|exact new_prog_well_locked]).
+  repeat split.
+  - exact (wl_init_safe _ _ Hwl).
+  - exact (wl_same_instance _ _ Hwl).
+  - exact (wl_single_init _ _ Hwl).
+  - exact (wl_never_replaced _ _ Hwl).
+  - exact (wl_no_deadlock_fair _ _ Hwl).
+Qed.
+Print Assumptions C20_both_shapes_safe.
+
+(* =============================================================================================== *)
+(* The publish-last shape WITHOUT the lock: every thread that finds None builds its own object in
+   its own local and publishes it when it is complete.  Nothing half-built is ever reachable from
+   the shared variable, so [init_safe] holds for every thread count and schedule -- the lock is
+   not needed for THAT; it is needed for [same_instance] / [single_init] (refuted below). *)
+Section UnlockedNew.
+  Variable expected : list nat.
+  Variable body : list instr.
+  Hypothesis Hbody :
+    exists fin, exec_body body fresh_obj = Some fin /\ obj_fullyb expected fin = true.
+
+  Notation nb := (length body).
+
+  (* 0 IJumpIfInst; 1 INewLocal; 2+j body; 2+nb IPublishSelf; 3+nb IReturn;  |uprog| = 4+nb *)
+  Definition uprog : list instr :=
+    IJumpIfInst (3 + nb) :: INewLocal :: body ++ [IPublishSelf; IReturn].
+
+  Lemma ubody_is_obj j i : nth_error body j = Some i -> is_obj i = true.
+  Proof.
+    destruct Hbody as (fin & Hex & _). intros H.
+    eapply exec_body_is_obj; [exact Hex | eapply nth_error_In; eauto].
+  Qed.
+
+  Lemma uinstr_at k i :
+    nth_error uprog k = Some i ->
+    (k = 0 /\ i = IJumpIfInst (3 + nb)) \/ (k = 1 /\ i = INewLocal)
+    \/ (exists j, k = 2 + j /\ j < nb /\ nth_error body j = Some i /\ is_obj i = true)
+    \/ (k = 2 + nb /\ i = IPublishSelf) \/ (k = 3 + nb /\ i = IReturn).
+  Proof.
+    unfold uprog. intros H. destruct k as [|[|j]]; cbn [nth_error] in H.
+    - left. split; congruence.
+    - right; left. split; congruence.
+    - apply nth_error_app_tail in H. destruct H as [[Hj Hb]|[Hj Hb]].
+      + do 2 right; left. exists j. repeat split; auto. eapply ubody_is_obj; eauto.
+      + destruct (j - nb) as [|[|q]] eqn:D; cbn [nth_error] in Hb.
+        * do 3 right; left. split; [lia|congruence].
+        * do 4 right. split; [lia|congruence].
+        * destruct q; discriminate.
+  Qed.
+
+  Lemma ulength : length uprog = 4 + nb.
+  Proof. unfold uprog. cbn [length]. rewrite app_length. cbn [length]. lia. Qed.
+
+  Definition fullobj (st : state) (o : objid) : Prop :=
+    exists ob, nth_error (heap st) o = Some ob /\ obj_fullyb expected ob = true.
+
+  (* o is the local of a thread that has completed (and published) it *)
+  Definition done (st : state) (o : objid) : Prop :=
+    exists t th, nth_error (threads st) t = Some th /\ self th = Some o /\ 2 + nb < pc th.
+
+  Record UInv (st : state) : Prop := mkUInv {
+    u_nolocal : forall t th, nth_error (threads st) t = Some th -> pc th <= 1 -> self th = None;
+    u_alloc : forall t th o, nth_error (threads st) t = Some th -> self th = Some o ->
+                             o < length (heap st);
+    u_distinct : forall t1 t2 th1 th2 o, t1 <> t2 ->
+        nth_error (threads st) t1 = Some th1 -> nth_error (threads st) t2 = Some th2 ->
+        self th1 = Some o -> self th2 = Some o -> False;
+    u_building : forall t th, nth_error (threads st) t = Some th -> 2 <= pc th <= 2 + nb ->
+        exists o ob fin, self th = Some o /\ nth_error (heap st) o = Some ob /\
+                         exec_body (skipn (pc th - 2) body) ob = Some fin /\
+                         obj_fullyb expected fin = true;
+    u_built : forall t th o, nth_error (threads st) t = Some th -> 2 + nb < pc th ->
+                             self th = Some o -> fullobj st o;
+    u_inst : forall o, inst st = Some o -> done st o;
+    u_ret : forall t th o, nth_error (threads st) t = Some th -> ret th = Some o -> done st o }.
+
+  Lemma uinit_inv n : UInv (init n).
+  Proof.
+    assert (H0 : forall t th, nth_error (threads (init n)) t = Some th -> th = thread0).
+    { intros t th H. cbn [threads init] in H. apply nth_error_In in H. eapply repeat_spec; exact H. }
+    constructor.
+    - intros t th H _. apply H0 in H. subst th. reflexivity.
+    - intros t th o H Hs. apply H0 in H. subst th. discriminate.
+    - intros t1 t2 th1 th2 o _ H1 _ Hs _. apply H0 in H1. subst th1. discriminate.
+    - intros t th H Hpc. apply H0 in H. subst th. cbn in Hpc. lia.
+    - intros t th o H Hpc. apply H0 in H. subst th. cbn in Hpc. lia.
+    - intros o H. discriminate.
+    - intros t th o H Hr. apply H0 in H. subst th. discriminate.
+  Qed.
+
+  (* [done] survives every update of one thread that keeps a completed thread completed *)
+  Lemma done_upd st lk' ins' hp' t th th' o :
+    nth_error (threads st) t = Some th ->
+    (2 + nb < pc th -> self th' = self th /\ 2 + nb < pc th') ->
+    done st o -> done (mkState lk' ins' hp' (upd (threads st) t th')) o.
+  Proof.
+    intros Hth Hk (t1 & th1 & H1 & Hs1 & Hp1). unfold done. cbn [threads].
+    destruct (Nat.eq_dec t1 t) as [->|Hne].
+    - rewrite Hth in H1. injection H1 as <-. destruct (Hk Hp1) as [Hs' Hp'].
+      exists t, th'. split; [eapply nth_error_upd_same; eauto|]. split; [congruence|assumption].
+    - exists t1, th1. split; [rewrite nth_error_upd_other; assumption|]. split; assumption.
+  Qed.
+
+  Lemma nth_error_app_keep {A} (l : list A) x o y :
+    nth_error l o = Some y -> nth_error (l ++ [x]) o = Some y.
+  Proof.
+    intros H. rewrite nth_error_app1; [assumption|]. apply nth_error_Some. congruence.
+  Qed.
+
+  Lemma ustep_inv st t : UInv st -> UInv (step uprog st t).
+  Proof.
+    intros HI. unfold step.
+    destruct (nth_error (threads st) t) as [th|] eqn:Hth; [|exact HI].
+    destruct (nth_error uprog (pc th)) as [i|] eqn:Hi; [|exact HI].
+    pose proof ulength as Hlen.
+    apply uinstr_at in Hi.
+    destruct Hi as [[Hk ->]|[[Hk ->]|[(j & Hk & Hj & Hb & Ho)|[[Hk ->]|[Hk ->]]]]].
+    - (* IJumpIfInst *)
+      cbn [exec_instr]. unfold set_thread.
+      assert (Hs0 : self th = None) by (apply (u_nolocal _ HI t th Hth); lia).
+      assert (G : forall pc', (pc' = 1 \/ pc' = 3 + nb) ->
+                  UInv (mkState (lock st) (inst st) (heap st)
+                                (upd (threads st) t (mkThread pc' (self th) (ret th))))).
+      { intros pc' Hpc'. constructor; unfold fullobj; cbn [threads heap inst].
+        - intros t' th' H' Hp. apply nth_error_upd_inv in H'. destruct H' as [[-> ->]|[Hne H']].
+          + exact Hs0.
+          + eapply (u_nolocal _ HI); eauto.
+        - intros t' th' o H' Hs. apply nth_error_upd_inv in H'. destruct H' as [[-> ->]|[Hne H']].
+          + cbn [self] in Hs. congruence.
+          + eapply (u_alloc _ HI); eauto.
+        - intros t1 t2 th1 th2 o Hne H1 H2 Hs1 Hs2.
+          apply nth_error_upd_inv in H1. apply nth_error_upd_inv in H2.
+          destruct H1 as [[-> ->]|[Hn1 H1]]; [cbn [self] in Hs1; congruence|].
+          destruct H2 as [[-> ->]|[Hn2 H2]]; [cbn [self] in Hs2; congruence|].
+          eapply (u_distinct _ HI t1 t2); eauto.
+        - intros t' th' H' Hp. apply nth_error_upd_inv in H'. destruct H' as [[-> ->]|[Hne H']].
+          + cbn [pc] in Hp. lia.
+          + eapply (u_building _ HI); eauto.
+        - intros t' th' o H' Hp Hs. apply nth_error_upd_inv in H'. destruct H' as [[-> ->]|[Hne H']].
+          + cbn [self] in Hs. congruence.
+          + eapply (u_built _ HI); eauto.
+        - intros o Hio. apply (done_upd _ _ _ _ _ _ _ _ Hth); [intros; lia|].
+          apply (u_inst _ HI); assumption.
+        - intros t' th' o H' Hr. apply (done_upd _ _ _ _ _ _ _ _ Hth); [intros; lia|].
+          apply nth_error_upd_inv in H'. destruct H' as [[-> ->]|[Hne H']].
+          + cbn [ret] in Hr. eapply (u_ret _ HI); eauto.
+          + eapply (u_ret _ HI); eauto. }
+      destruct (inst st); apply G; [right; reflexivity | left; cbn [advance]; lia].
+    - (* INewLocal *)
+      cbn [exec_instr].
+      constructor; unfold fullobj; cbn [threads heap inst].
+      + intros t' th' H' Hp. apply nth_error_upd_inv in H'. destruct H' as [[-> ->]|[Hne H']].
+        * cbn [pc] in Hp. lia.
+        * eapply (u_nolocal _ HI); eauto.
+      + intros t' th' o H' Hs. rewrite app_length. cbn [length].
+        apply nth_error_upd_inv in H'. destruct H' as [[-> ->]|[Hne H']].
+        * cbn [self] in Hs. injection Hs as <-. lia.
+        * pose proof (u_alloc _ HI _ _ _ H' Hs). lia.
+      + intros t1 t2 th1 th2 o Hne H1 H2 Hs1 Hs2.
+        apply nth_error_upd_inv in H1. apply nth_error_upd_inv in H2.
+        destruct H1 as [[-> ->]|[Hn1 H1]]; destruct H2 as [[-> ->]|[Hn2 H2]].
+        * congruence.
+        * cbn [self] in Hs1. injection Hs1 as <-. pose proof (u_alloc _ HI _ _ _ H2 Hs2). lia.
+        * cbn [self] in Hs2. injection Hs2 as <-. pose proof (u_alloc _ HI _ _ _ H1 Hs1). lia.
+        * eapply (u_distinct _ HI t1 t2); eauto.
+      + intros t' th' H' Hp. apply nth_error_upd_inv in H'. destruct H' as [[-> ->]|[Hne H']].
+        * destruct Hbody as (fin & Hex & Hfull).
+          exists (length (heap st)), fresh_obj, fin. cbn [pc self]. rewrite Hk. cbn [Nat.sub skipn].
+          repeat split; auto. rewrite nth_error_app2 by lia. rewrite Nat.sub_diag. reflexivity.
+        * destruct (u_building _ HI _ _ H' Hp) as (o & ob & fin & Hs & Hn & Hex & Hfull).
+          exists o, ob, fin. repeat split; auto. apply nth_error_app_keep. assumption.
+      + intros t' th' o H' Hp Hs. apply nth_error_upd_inv in H'. destruct H' as [[-> ->]|[Hne H']].
+        * cbn [pc] in Hp. lia.
+        * destruct (u_built _ HI _ _ _ H' Hp Hs) as (ob & Hn & Hfull).
+          exists ob. split; [apply nth_error_app_keep; assumption|assumption].
+      + intros o Hio. apply (done_upd _ _ _ _ _ _ _ _ Hth); [intros; lia|].
+        apply (u_inst _ HI); assumption.
+      + intros t' th' o H' Hr. apply (done_upd _ _ _ _ _ _ _ _ Hth); [intros; lia|].
+        apply nth_error_upd_inv in H'. destruct H' as [[-> ->]|[Hne H']].
+        * cbn [ret] in Hr. eapply (u_ret _ HI); eauto.
+        * eapply (u_ret _ HI); eauto.
+    - (* a statement of default_initialization, on the thread's own unpublished object *)
+      destruct (u_building _ HI _ _ Hth ltac:(lia)) as (o & ob & fin & Hs & Hn & Hex & Hfull).
+      replace (pc th - 2) with j in Hex by lia.
+      rewrite (skipn_nth_cons _ _ _ Hb) in Hex. cbn [exec_body] in Hex.
+      destruct (exec_obj i ob) as [ob'|] eqn:Eob; [|discriminate].
+      rewrite (exec_instr_obj _ _ _ _ _ _ _ Eob). unfold step_obj. rewrite Hs, Hn, Eob.
+      constructor; unfold fullobj; cbn [threads heap inst].
+      + intros t' th' H' Hp. apply nth_error_upd_inv in H'. destruct H' as [[-> ->]|[Hne H']].
+        * cbn [pc advance] in Hp. lia.
+        * eapply (u_nolocal _ HI); eauto.
+      + intros t' th' o' H' Hs'. rewrite upd_length.
+        apply nth_error_upd_inv in H'. destruct H' as [[-> ->]|[Hne H']].
+        * cbn [self advance] in Hs'. eapply (u_alloc _ HI); eauto.
+        * eapply (u_alloc _ HI); eauto.
+      + intros t1 t2 th1 th2 o' Hne H1 H2 Hs1 Hs2.
+        apply nth_error_upd_inv in H1. apply nth_error_upd_inv in H2.
+        destruct H1 as [[-> ->]|[Hn1 H1]]; destruct H2 as [[-> ->]|[Hn2 H2]].
+        * congruence.
+        * cbn [self advance] in Hs1. eapply (u_distinct _ HI t t2); eauto.
+        * cbn [self advance] in Hs2. eapply (u_distinct _ HI t1 t); eauto.
+        * eapply (u_distinct _ HI t1 t2); eauto.
+      + intros t' th' H' Hp. apply nth_error_upd_inv in H'. destruct H' as [[-> ->]|[Hne H']].
+        * exists o, ob', fin. cbn [pc self advance]. replace (S (pc th) - 2) with (S j) by lia.
+          repeat split; auto. eapply nth_error_upd_same; eauto.
+        * destruct (u_building _ HI _ _ H' Hp) as (o' & ob2 & fin2 & Hs2 & Hn2 & Hex2 & Hfull2).
+          exists o', ob2, fin2. repeat split; auto.
+          rewrite nth_error_upd_other; [assumption|].
+          intros ->. eapply (u_distinct _ HI t' t); eauto.
+      + intros t' th' o' H' Hp Hs'. apply nth_error_upd_inv in H'. destruct H' as [[-> ->]|[Hne H']].
+        * cbn [pc advance] in Hp. lia.
+        * destruct (u_built _ HI _ _ _ H' Hp Hs') as (ob2 & Hn2 & Hfull2).
+          exists ob2. split; [|assumption]. rewrite nth_error_upd_other; [assumption|].
+          intros ->. eapply (u_distinct _ HI t' t); eauto.
+      + intros o' Hio. apply (done_upd _ _ _ _ _ _ _ _ Hth); [intros; lia|].
+        apply (u_inst _ HI); assumption.
+      + intros t' th' o' H' Hr. apply (done_upd _ _ _ _ _ _ _ _ Hth); [intros; lia|].
+        apply nth_error_upd_inv in H'. destruct H' as [[-> ->]|[Hne H']].
+        * cbn [ret advance] in Hr. eapply (u_ret _ HI); eauto.
+        * eapply (u_ret _ HI); eauto.
+    - (* IPublishSelf: the object is complete *)
+      destruct (u_building _ HI _ _ Hth ltac:(lia)) as (o & ob & fin & Hs & Hn & Hex & Hfull).
+      replace (pc th - 2) with nb in Hex by lia.
+      rewrite skipn_all in Hex. cbn [exec_body] in Hex. injection Hex as <-.
+      cbn [exec_instr]. rewrite Hs.
+      assert (Hdone : done (mkState (lock st) (Some o) (heap st) (upd (threads st) t (advance th))) o).
+      { exists t, (advance th). cbn [threads pc self advance].
+        split; [eapply nth_error_upd_same; eauto|]. split; [assumption|lia]. }
+      constructor; unfold fullobj; cbn [threads heap inst].
+      + intros t' th' H' Hp. apply nth_error_upd_inv in H'. destruct H' as [[-> ->]|[Hne H']].
+        * cbn [pc advance] in Hp. lia.
+        * eapply (u_nolocal _ HI); eauto.
+      + intros t' th' o' H' Hs'.
+        apply nth_error_upd_inv in H'. destruct H' as [[-> ->]|[Hne H']].
+        * cbn [self advance] in Hs'. eapply (u_alloc _ HI); eauto.
+        * eapply (u_alloc _ HI); eauto.
+      + intros t1 t2 th1 th2 o' Hne H1 H2 Hs1 Hs2.
+        apply nth_error_upd_inv in H1. apply nth_error_upd_inv in H2.
+        destruct H1 as [[-> ->]|[Hn1 H1]]; destruct H2 as [[-> ->]|[Hn2 H2]].
+        * congruence.
+        * cbn [self advance] in Hs1. eapply (u_distinct _ HI t t2); eauto.
+        * cbn [self advance] in Hs2. eapply (u_distinct _ HI t1 t); eauto.
+        * eapply (u_distinct _ HI t1 t2); eauto.
+      + intros t' th' H' Hp. apply nth_error_upd_inv in H'. destruct H' as [[-> ->]|[Hne H']].
+        * cbn [pc advance] in Hp. lia.
+        * eapply (u_building _ HI); eauto.
+      + intros t' th' o' H' Hp Hs'. apply nth_error_upd_inv in H'. destruct H' as [[-> ->]|[Hne H']].
+        * cbn [self advance] in Hs'. assert (o' = o) by congruence. subst o'.
+          exists ob. split; assumption.
+        * eapply (u_built _ HI); eauto.
+      + intros o' Hio. injection Hio as <-. exact Hdone.
+      + intros t' th' o' H' Hr. apply (done_upd _ _ _ _ _ _ _ _ Hth); [intros; lia|].
+        apply nth_error_upd_inv in H'. destruct H' as [[-> ->]|[Hne H']].
+        * cbn [ret advance] in Hr. eapply (u_ret _ HI); eauto.
+        * eapply (u_ret _ HI); eauto.
+    - (* IReturn *)
+      cbn [exec_instr]. unfold set_thread. rewrite Hlen.
+      constructor; unfold fullobj; cbn [threads heap inst].
+      + intros t' th' H' Hp. apply nth_error_upd_inv in H'. destruct H' as [[-> ->]|[Hne H']].
+        * cbn [pc] in Hp. lia.
+        * eapply (u_nolocal _ HI); eauto.
+      + intros t' th' o' H' Hs'.
+        apply nth_error_upd_inv in H'. destruct H' as [[-> ->]|[Hne H']].
+        * cbn [self] in Hs'. eapply (u_alloc _ HI); eauto.
+        * eapply (u_alloc _ HI); eauto.
+      + intros t1 t2 th1 th2 o' Hne H1 H2 Hs1 Hs2.
+        apply nth_error_upd_inv in H1. apply nth_error_upd_inv in H2.
+        destruct H1 as [[-> ->]|[Hn1 H1]]; destruct H2 as [[-> ->]|[Hn2 H2]].
+        * congruence.
+        * cbn [self] in Hs1. eapply (u_distinct _ HI t t2); eauto.
+        * cbn [self] in Hs2. eapply (u_distinct _ HI t1 t); eauto.
+        * eapply (u_distinct _ HI t1 t2); eauto.
+      + intros t' th' H' Hp. apply nth_error_upd_inv in H'. destruct H' as [[-> ->]|[Hne H']].
+        * cbn [pc] in Hp. lia.
+        * eapply (u_building _ HI); eauto.
+      + intros t' th' o' H' Hp Hs'. apply nth_error_upd_inv in H'. destruct H' as [[-> ->]|[Hne H']].
+        * cbn [self] in Hs'. eapply (u_built _ HI t th); eauto. lia.
+        * eapply (u_built _ HI); eauto.
+      + intros o' Hio. apply (done_upd _ _ _ _ _ _ _ _ Hth); [intros; cbn [pc self]; split; [reflexivity|lia]|].
+        apply (u_inst _ HI); assumption.
+      + intros t' th' o' H' Hr.
+        apply (done_upd _ _ _ _ _ _ _ _ Hth); [intros; cbn [pc self]; split; [reflexivity|lia]|].
+        apply nth_error_upd_inv in H'. destruct H' as [[-> ->]|[Hne H']].
+        * cbn [ret] in Hr. apply (u_inst _ HI); assumption.
+        * eapply (u_ret _ HI); eauto.
+  Qed.
+
+  Lemma urun_inv n sched : UInv (run uprog n sched).
+  Proof.
+    unfold run, run_from. generalize (uinit_inv n). generalize (init n).
+    induction sched as [|t sched IH]; intros st H; cbn [fold_left]; auto.
+    apply IH. apply ustep_inv. assumption.
+  Qed.
+
+  (* without any lock: whoever returns holds a completely initialised lexer *)
+  Theorem unlocked_new_init_safe : forall n sched t o,
+    returned (run uprog n sched) t = Some o -> fully_initialised expected (run uprog n sched) o.
+  Proof.
+    intros n sched t o H. pose proof (urun_inv n sched) as HI. unfold returned in H.
+    destruct (nth_error (threads (run uprog n sched)) t) as [th|] eqn:Hth; [|discriminate].
+    destruct (u_ret _ HI _ _ _ Hth H) as (t1 & th1 & H1 & Hs1 & Hp1).
+    destruct (u_built _ HI _ _ _ H1 Hp1 Hs1) as (ob & Hn & Hfull).
+    apply fully_initialisedb_spec. unfold fully_initialisedb. rewrite Hn. exact Hfull.
+  Qed.
+
+  (* ... and what the shared variable designates is complete at every moment *)
+  Theorem unlocked_new_inst_complete : forall n sched o,
+    inst (run uprog n sched) = Some o -> fully_initialised expected (run uprog n sched) o.
+  Proof.
+    intros n sched o H. pose proof (urun_inv n sched) as HI.
+    destruct (u_inst _ HI _ H) as (t1 & th1 & H1 & Hs1 & Hp1).
+    destruct (u_built _ HI _ _ _ H1 Hp1 Hs1) as (ob & Hn & Hfull).
+    apply fully_initialisedb_spec. unfold fully_initialisedb. rewrite Hn. exact Hfull.
+  Qed.
+End UnlockedNew.
+Print Assumptions unlocked_new_init_safe.
+
+(* =============================================================================================== *)
 (* Refutations: the same statements are FALSE for the unprotected variants. *)
 
 Definition is_lock_instr (i : instr) : bool :=
   match i with IAcquire | IRelease => true | _ => false end.
 
-(* the historic program: no `with cls._lock:`.  (The jump target moves up by one because the
-   IAcquire in front of it is gone; it now designates the IReturn.) *)
+(* no `with cls._lock:`.  (The jump target moves up by one because the IAcquire in front of it is
+   gone; it now designates the IReturn.) *)
 Definition unlocked_of (p : list instr) : list instr :=
   map (fun i => match i with IJumpIfInst tg => IJumpIfInst (tg - 1) | _ => i end)
       (filter (fun i => negb (is_lock_instr i)) p).
-Definition unlocked_prog : list instr := unlocked_of prog.
 
 (* the lock is dropped right after the assignment:
      with cls._lock:
@@ -811,15 +1344,23 @@ Definition early_release_of (p : list instr) : list instr :=
         :: filter (fun i => match i with IRelease => false | _ => true end) rest
   | _ => p
   end.
-Definition early_release_prog : list instr := early_release_of prog.
+
+(* ---- publish-then-initialise (the historic program when the source has that shape) ----------- *)
+Definition unlocked_prog : list instr := unlocked_of old_prog.
+Definition early_release_prog : list instr := early_release_of old_prog.
+(* ---- initialise-then-publish ------------------------------------------------------------------ *)
+Definition unlocked_new_prog : list instr := unlocked_of new_prog.
 
 Eval vm_compute in unlocked_prog.
 Eval vm_compute in early_release_prog.
+Eval vm_compute in unlocked_new_prog.
 
-(* the proof obligation fails for both *)
+(* the proof obligation fails for all of them *)
 Example unlocked_not_well_locked : well_locked expected_kws unlocked_prog = false.
 Proof. vm_compute. reflexivity. Qed.
 Example early_release_not_well_locked : well_locked expected_kws early_release_prog = false.
+Proof. vm_compute. reflexivity. Qed.
+Example unlocked_new_not_well_locked : well_locked expected_kws unlocked_new_prog = false.
 Proof. vm_compute. reflexivity. Qed.
 
 (* A: test, allocate+publish;  B: test (sees the instance), return -> B holds a Lexer without
@@ -865,6 +1406,76 @@ Print Assumptions C20_early_release_refuted.
 Eval vm_compute in
   run early_release_prog 2 (repeat 0 (length early_release_prog - 1) ++ [1; 1; 1; 1; 1; 0]).
 
+(* ---- the publish-last shape without the lock ---------------------------------------------------
+   Both threads see None, both build an object, both publish: two Lexer objects, the two threads
+   hold different instances, and the instance published first is REPLACED -- the lock is what
+   gives single initialisation ... *)
+Theorem C20_unlocked_new_two_instances_refuted :
+  exists sched o1 o2,
+    returned (run unlocked_new_prog 2 sched) 0 = Some o1 /\
+    returned (run unlocked_new_prog 2 sched) 1 = Some o2 /\ o1 <> o2 /\
+    length (heap (run unlocked_new_prog 2 sched)) = 2.
+Proof.
+  exists ([0; 1] ++ repeat 0 (length unlocked_new_prog) ++ repeat 1 (length unlocked_new_prog)).
+  vm_compute. eexists _, _. repeat split; discriminate.
+Qed.
+Print Assumptions C20_unlocked_new_two_instances_refuted.
+
+Theorem C20_unlocked_new_replaced_refuted :
+  exists sched sched' o o',
+    inst (run unlocked_new_prog 2 sched) = Some o /\
+    inst (run unlocked_new_prog 2 (sched ++ sched')) = Some o' /\ o <> o'.
+Proof.
+  exists ([0; 1] ++ repeat 0 (length unlocked_new_prog)), (repeat 1 (length unlocked_new_prog)).
+  vm_compute. eexists _, _. repeat split; discriminate.
+Qed.
+Print Assumptions C20_unlocked_new_replaced_refuted.
+
+Eval vm_compute in
+  run unlocked_new_prog 2 ([0; 1] ++ repeat 0 (length unlocked_new_prog) ++ repeat 1 (length unlocked_new_prog)).
+
+(* ... but NOT what keeps half-built objects away from the callers: without the lock every thread
+   that returns still holds a completely initialised lexer, for every thread count and schedule *)
+Lemma unlocked_new_prog_eq : unlocked_new_prog = uprog gen_body.
+Proof.
+  destruct gen_body_ok as (fin & Hex & _).
+  assert (Hf : forall l ob fin', exec_body l ob = Some fin' ->
+               map (fun i => match i with IJumpIfInst tg => IJumpIfInst (tg - 1) | _ => i end)
+                   (filter (fun i => negb (is_lock_instr i)) l) = l).
+  { induction l as [|a l IH]; intros ob fin' H; [reflexivity|].
+    cbn [exec_body] in H. destruct (exec_obj a ob) as [ob'|] eqn:E; [|discriminate].
+    pose proof (exec_obj_is_obj _ _ _ E) as Ha.
+    destruct a; try discriminate; cbn [filter is_lock_instr negb map]; f_equal; eapply IH; eauto. }
+  unfold unlocked_new_prog, unlocked_of, new_prog, prog_of, uprog.
+  cbn [filter is_lock_instr negb map]. rewrite filter_app, map_app. rewrite (Hf _ _ _ Hex).
+  cbn [filter is_lock_instr negb map app]. do 2 f_equal.
+Qed.
+
+Theorem C20_unlocked_new_init_safe : forall n sched t o,
+  returned (run unlocked_new_prog n sched) t = Some o ->
+  fully_initialised expected_kws (run unlocked_new_prog n sched) o.
+Proof.
+  rewrite unlocked_new_prog_eq. exact (unlocked_new_init_safe _ _ gen_body_ok).
+Qed.
+Print Assumptions C20_unlocked_new_init_safe.
+
+Theorem C20_unlocked_new_inst_complete : forall n sched o,
+  inst (run unlocked_new_prog n sched) = Some o ->
+  fully_initialised expected_kws (run unlocked_new_prog n sched) o.
+Proof.
+  rewrite unlocked_new_prog_eq. exact (unlocked_new_inst_complete _ _ gen_body_ok).
+Qed.
+Print Assumptions C20_unlocked_new_inst_complete.
+
+(* the hypothesis of C20_unlocked_new_init_safe is satisfiable: both threads return (different!)
+   completely initialised objects *)
+Example C20_ex_unlocked_new :
+  let st := run unlocked_new_prog 2
+                ([0; 1] ++ repeat 0 (length unlocked_new_prog) ++ repeat 1 (length unlocked_new_prog)) in
+  returned st 0 = Some 0 /\ returned st 1 = Some 1
+  /\ fully_initialisedb expected_kws st 0 = true /\ fully_initialisedb expected_kws st 1 = true.
+Proof. vm_compute. repeat split. Qed.
+
 (* =============================================================================================== *)
 (* Examples: the hypotheses of the theorems are satisfiable; sample runs *)
 
@@ -881,11 +1492,24 @@ Example C20_ex_returned :
   /\ fully_initialisedb expected_kws (run prog 3 (repeat 1 (length prog) ++ [0; 2; 0; 2; 2; 0; 0; 2; 2; 2; 2])) 0 = true.
 Proof. vm_compute. repeat split. Qed.
 
-(* in the middle of the initialisation nobody has returned, and the published object is NOT yet
-   fully initialised -- the theorems are not vacuous *)
+(* in the middle of the initialisation nobody has returned -- the theorems are not vacuous.
+   Publish-first shape: the PUBLISHED object is not yet fully initialised (the lock is all that
+   protects the other threads); publish-last shape: nothing is published yet. *)
+Example C20_ex_midway_old :
+  let st := run old_prog 3 [0; 0; 0; 0; 0; 0; 0; 1; 2; 1; 2; 0; 1] in
+  inst st = Some 0 /\ fully_initialisedb expected_kws st 0 = false
+  /\ returned st 0 = None /\ returned st 1 = None /\ lock st = Some 0.
+Proof. vm_compute. repeat split. Qed.
+
+Example C20_ex_midway_new :
+  let st := run new_prog 3 [0; 0; 0; 0; 0; 0; 0; 1; 2; 1; 2; 0; 1] in
+  inst st = None /\ length (heap st) = 1 /\ fully_initialisedb expected_kws st 0 = false
+  /\ returned st 0 = None /\ returned st 1 = None /\ lock st = Some 0.
+Proof. vm_compute. repeat split. Qed.
+
 Example C20_ex_midway :
   let st := run prog 3 [0; 0; 0; 0; 0; 0; 0; 1; 2; 1; 2; 0; 1] in
-  inst st = Some 0 /\ fully_initialisedb expected_kws st 0 = false
+  length (heap st) = 1 /\ fully_initialisedb expected_kws st 0 = false
   /\ returned st 0 = None /\ returned st 1 = None /\ lock st = Some 0.
 Proof. vm_compute. repeat split. Qed.
 
@@ -893,3 +1517,10 @@ Example C20_ex_round_robin :
   map (returned (run prog 4 (round_robin 4 (4 * length prog)))) [0; 1; 2; 3]
   = [Some 0; Some 0; Some 0; Some 0].
 Proof. vm_compute. reflexivity. Qed.
+
+Example C20_ex_round_robin_both :
+  map (returned (run old_prog 4 (round_robin 4 (4 * length old_prog)))) [0; 1; 2; 3]
+  = [Some 0; Some 0; Some 0; Some 0]
+  /\ map (returned (run new_prog 4 (round_robin 4 (4 * length new_prog)))) [0; 1; 2; 3]
+     = [Some 0; Some 0; Some 0; Some 0].
+Proof. vm_compute. split; reflexivity. Qed.
